@@ -561,6 +561,7 @@ PROPS["C02"]["parts"] = [
     {"name": "ea", "harness": "ea.c", "flavor": "ubsan", "images": (("s", "server"), ("ca", "client")), "args": ["--prop", "C02"]},
     dict(_TWO, args=["--prop", "C02"]),
 ]
+PROPS["C02"]["level_text"] += " A third sub-check keeps the path clean and makes the one deviation of an execution a pair of small packets arriving on the client's and the server's tun device 1, 4 or 12 ms (or on one side only) after some datagram the client sends (every client datagram of the run x 15 pairs, 13 cells): three queries can then be in flight at once; every accepted packet must still arrive once, in order."
 PROPS["C02"]["level_text"] += " A second part applies the clean-path oracle to the two-client exploration (client-to-client packets, bursts from the server's tun that fill one client's queue while the other is idle, and a second session that inherits a dead client's slot)."
 PROPS["C11"]["parts"] = [
     {"name": "ea", "harness": "ea.c", "flavor": "ubsan", "images": (("s", "server"), ("ca", "client")), "args": ["--prop", "C11"]},
